@@ -93,7 +93,10 @@ func (fc *filterCall) Execute(v *Value, ctx *ExecutionContext) (*Value, *Error) 
 
 	filteredValue, err := fc.filterFunc(v, param)
 	if err != nil {
-		return nil, err.updateFromTokenIfNeeded(ctx.template, fc.token)
+		// a copy is completed: a filter may hand out one and the same error
+		// object for all of its failures
+		completed := *err
+		return nil, completed.updateFromTokenIfNeeded(ctx.template, fc.token)
 	}
 	return filteredValue, nil
 }
